@@ -48,10 +48,12 @@ Definition self_coords (x : kctx) : coords :=
 Definition is_none_node (n : node) : bool :=
   match n with NLeaf _ PNone => true | _ => false end.
 
-(* Nodes.node_is_aoh (nodes.py:565-589) *)
+(* Nodes.node_is_aoh (nodes.py:565-589).  `isinstance(node, (list, set))`: a
+   loaded !!set is a ruamel CommentedSet, which is a MutableSet and NOT a
+   `set` (a set of nulls is therefore no Array-of-Hashes) *)
 Definition node_is_aoh (accept_nulls : bool) (n : node) : bool :=
   match n with
-  | NSeq _ els | NSet _ els =>
+  | NSeq _ els =>
       forallb (fun e => (accept_nulls && is_none_node e) || is_map e) els
   | _ => false
   end.
@@ -211,7 +213,7 @@ Definition has_child (invert : bool) (params : list string) (data : node) (x : k
   match params with
   | [match_key] =>
       match match_key with
-      | EmptyString => Raise (PyCrash IndexError)          (* match_key[0] *)
+      | EmptyString => has_concrete_child invert match_key data x     (* match_key.startswith("&"), fix 092bab8 *)
       | String c _ =>
           if Ascii.eqb c "&"%char then has_anchored_child invert match_key data x
           else has_concrete_child invert match_key data x
